@@ -13,7 +13,7 @@ RULE = ("histories of the real async client over a scripted mock transport vs th
 def run(ctx):
     ctx.engines = ["clihist (harness/src/bin/clihist.rs vs modelrun/clihist_driver.ml over coq/Model/ClientMgr.v)"]
     hs = C.c03_permutation_histories(ctx.rng, kmax=ctx.scale(3, 4))
-    hs += random_histories(ctx, ctx.scale(1500, 30000))
+    hs += random_histories(ctx, ctx.scale(1500, 150000))
     # a batch entry is a call too: every id sequence of length n from the batch's own range (n <= 3 quick, 4 thorough);
     # the batch oracle checks that no entry completes with a response bearing another entry's id
     hs += C.c12_idseq_histories(ctx.rng, nmax=ctx.scale(3, 4))
